@@ -338,6 +338,22 @@ theorem vw_any_tiebreak (big eps : α) (L out : List (Fix α)) (h2 : 2 ≤ L.len
   subst e
   exact ⟨r3, r4, by rw [List.length_map]; exact r1.len⟩
 
+/-- T13 without hypothesis (T12 for **every** run): whatever the areas (infinite, NaN, mixed) and whichever of the equally small
+triangles goes first at each pass, the result is a sub-sequence of the input observations, the **last** observation is kept and a
+track of two or more observations keeps at least two. (A run is a finite sequence of passes by construction: each removes one
+observation.) Any scalar type. -/
+theorem vw_any_tiebreak_any_areas (big eps : α) (L out : List (Fix α)) (h1 : 1 ≤ L.length) (h : VwAnyResult big eps L out) :
+    out.Sublist L ∧ out.getLast? = L.getLast? ∧ (2 ≤ L.length → 2 ≤ out.length) := by
+  refine ⟨vw_any_tiebreak_sublist big eps L out h, ?_⟩
+  obtain ⟨S', r, _, e⟩ := h
+  obtain ⟨_, r2, r3⟩ := r.any (vwInit_lastNaN L h1)
+  have hlen : (vwInit L).length = L.length := by
+    have := congrArg List.length (vwInit_map_fst L)
+    rwa [List.length_map] at this
+  rw [vwInit_map_fst] at r2
+  subst e
+  exact ⟨r2, fun h2 => by rw [List.length_map]; exact r3 (by omega)⟩
+
 /-- T13 (the code's own run is one of them): what `visvalingam` returns — ARGMIN's first minimum at every pass — is a
 `VwAnyResult`. No hypothesis; any scalar type. -/
 theorem vw_own_run_is_tiebreak_run (big eps : α) (L : List (Fix α)) : VwAnyResult big eps L (visvalingam big eps L) := by
